@@ -223,6 +223,111 @@ theorem sortNat_perm : ∀ (l : List Nat), (sortNat l).Perm l
 theorem extractTopics_nodup (ms : List Member) : (extractTopics ms).Nodup :=
   (sortNat_perm _).nodup_iff.mpr (firstListings_nodup _ [])
 
+
+/-! ### the executable acceptor is sound -/
+
+theorem ledIn_nil_of_zone (ps : List Part) (t z : Nat) (h : ¬ z ∈ ps.map (·.zone)) : ledIn ps t z = [] := by
+  unfold ledIn
+  rw [List.map_eq_nil_iff, List.filter_eq_nil_iff]
+  intro p hp
+  simp
+  intro _ hz
+  exact h (List.mem_map.mpr ⟨p, hp, hz⟩)
+
+theorem readsTopicsB_sound (cluster : List Part) (topics : List Nat) (got : List Part)
+    (h : readsTopicsB cluster topics got = true) : ReadsTopics cluster topics got := by
+  intro t ht
+  simp only [readsTopicsB, List.all_eq_true, Bool.and_eq_true, decide_eq_true_eq] at h
+  obtain ⟨h1, h2⟩ := h t ht
+  refine ⟨h1, fun z => ?_⟩
+  by_cases hz : z ∈ (got ++ cluster).map (·.zone)
+  · exact h2 z hz
+  · have hg : ¬ z ∈ got.map (·.zone) := fun hm => hz (by simp at hm ⊢; obtain ⟨p, hp, e⟩ := hm; exact Or.inl ⟨p, hp, e⟩)
+    have hc : ¬ z ∈ cluster.map (·.zone) := fun hm => hz (by simp at hm ⊢; obtain ⟨p, hp, e⟩ := hm; exact Or.inr ⟨p, hp, e⟩)
+    rw [ledIn_nil_of_zone got t z hg, ledIn_nil_of_zone cluster t z hc]
+
+theorem stepB_sound (P : Params) (s s' : St) (e : Ev) (h : stepB P s e = some s') : Step P s e s' := by
+  cases e with
+  | newRound ms leader =>
+    simp only [stepB] at h
+    split at h
+    · rename_i hl
+      injection h with h; subst h
+      have : ∃ m ∈ ms, m.id = leader := by
+        obtain ⟨m, hm, he⟩ := List.any_eq_true.mp hl
+        exact ⟨m, hm, by simpa using he⟩
+      exact Step.newRound s ms leader this
+    · cases h
+  | joinOk m gid =>
+    simp only [stepB] at h
+    split at h
+    · rename_i r hr
+      split at h
+      · rename_i hc
+        injection h with h; subst h
+        simp only [Bool.and_eq_true] at hc
+        have hm : ∃ x ∈ r.ms, x.id = m := by
+          obtain ⟨x, hx, he⟩ := List.any_eq_true.mp hc.1
+          exact ⟨x, hx, by simpa using he⟩
+        have hp : s.pc m = .joining := by
+          cases hpc : s.pc m <;> simp [hpc, isJoining] at hc ⊢
+        exact Step.joinOk s m gid r (List.mem_of_find?_eq_some hr) (by simpa using List.find?_some hr) hm hp
+      · cases h
+    · cases h
+  | assign m got =>
+    simp only [stepB] at h
+    split at h
+    · rename_i gid ms hp
+      split at h
+      · rename_i hr
+        injection h with h; subst h
+        exact Step.assign s m gid ms got hp (readsTopicsB_sound _ _ _ hr)
+      · cases h
+    · cases h
+  | syncLeader m =>
+    simp only [stepB] at h
+    split at h
+    · rename_i gid got A hp
+      split at h
+      · rename_i r hr
+        split at h
+        · rename_i hc
+          injection h with h; subst h
+          simp only [Bool.and_eq_true, beq_iff_eq] at hc
+          have hr' := List.find?_some hr
+          simp only [Bool.and_eq_true, beq_iff_eq] at hr'
+          exact Step.syncLeader s m gid r.ms got A hp ⟨r, List.mem_of_find?_eq_some hr, hr'.1, hr'.2, rfl⟩ hc.1
+            (by simpa using hc.2)
+        · cases h
+      · cases h
+    · cases h
+  | syncMember m =>
+    simp only [stepB] at h
+    split at h
+    · rename_i gid hp
+      split at h
+      · rename_i x hx
+        split at h
+        · rename_i hc
+          injection h with h; subst h
+          exact Step.syncMember s m gid x hp (by simpa using hc) hx
+        · cases h
+      · cases h
+    · cases h
+  | rejoin m =>
+    simp only [stepB] at h
+    injection h with h; subst h
+    exact Step.rejoin s m
+
+/-- every accepted trace ends in a reachable state of the model -/
+theorem runB_reachable (P : Params) : ∀ (es : List Ev) (s s' : St) (k : Nat), Reachable P s → runB P s es k = .ok s' → Reachable P s'
+  | [], s, s', _, hs, h => by simp [runB] at h; subst h; exact hs
+  | e :: es, s, s', k, hs, h => by
+    simp only [runB] at h
+    split at h
+    · rename_i s1 h1
+      exact runB_reachable P es s1 s' (k + 1) (Reachable.step s s1 e hs (stepB_sound P s s1 e h1)) h
+    · cases h
 end More
 
 end KV.GroupRound
